@@ -30,6 +30,8 @@ CODES = ['Client', 'Server', 'Client.A', 'Server.A.B.C', 'Clientele', 'Other.X']
 MESSAGES = [('ascii', 'plain message'), ('non-ascii', 'm\xe9ssage ☃ \U0001F600'), ('markup', '<b>&amp; "q" \'s\' ]]>'), ('empty', '')]
 DETAILS = [('none', None), ('flat', {'k': 'v', 'n': '1'}), ('nested', {'outer': {'inner': 'x', 'more': {'deep': 'y'}}}),
            # leaves that are not strings, the falsy ones included (compared as their text)
+           # nested dicts that are followed by further members
+           ('nested-then-more', {'where': {'line': '3', 'col': '4'}, 'hint': 'retry', 'again': {'x': {'y': 'z'}}, 'last': 'end'}),
            ('scalars', {'count': 0, 'ratio': 0.0, 'flag': False, 'n': 5, 'on': True, 'nested': {'zero': 0, 'one': 1}})]
 BUILTIN = ['ResourceNotFoundError', 'RequestTooLongError', 'RequestNotAllowed', 'InvalidCredentialsError', 'ValidationError',
            'InternalError', 'ArgumentError']
@@ -49,7 +51,7 @@ def fault_cases(tier):
     for cls in ('Fault', 'PubFault'):
         for code in CODES:
             for (ml, msg), (dl, det) in itertools.product(MESSAGES, DETAILS):
-                if tier == 'quick' and cls == 'PubFault' and (ml not in ('ascii', 'non-ascii') or dl in ('nested', 'scalars')):
+                if tier == 'quick' and cls == 'PubFault' and (ml not in ('ascii', 'non-ascii') or dl in ('nested', 'scalars', 'nested-then-more')):
                     continue
                 out.append({'kind': 'fault', 'cls': cls, 'code': code, 'ml': ml, 'msg': msg, 'dl': dl, 'detail': det})
     for (ml, msg) in MESSAGES:
